@@ -1,10 +1,25 @@
-HOOK_COMMITS = ["7de202d", "7f6c320", "bd5f58f", "f5c511f"]
-FIX_COMMITS = ["7a73b90", "307c7cf", "73e9739", "b6ad768", "06a0422", "37593fd", "b26bda1", "ef4414e", "83534a3", "9d32858", "8df6799", "bfa46be", "d5169bc", "e984a30", "8e975df", "0e9fd95", "93bc5a2", "0df18c2", "dae6c16", "f32a1a0", "6b14b06", "641f662", "5fd891f", "12b678f", "5af4846", "35b9151", "1a0d573"]
+HOOK_COMMITS = ["7de202d", "7f6c320", "bd5f58f", "f5c511f", "6cf08df"]
+FIX_COMMITS = ["7a73b90", "307c7cf", "73e9739", "b6ad768", "06a0422", "37593fd", "b26bda1", "ef4414e", "83534a3", "9d32858", "8df6799", "bfa46be", "d5169bc", "e984a30", "8e975df", "0e9fd95", "93bc5a2", "0df18c2", "dae6c16", "f32a1a0", "6b14b06", "641f662", "5fd891f", "12b678f", "5af4846", "35b9151", "1a0d573", "4dd26bc", "3419442", "a44aef0", "bfa15ff"]
 
 NOTE_COMMON = ("Trusted: Lean kernel (axioms propext/Classical.choice/Quot.sound only), the hand-written model's "
                "fidelity outside the sampled correspondence, rustc/std and third-party crates as black boxes, the guarded hooks.")
 
 CLAIMS = {
+    "C09": {
+        "level": "Kernel-checked for every text, cursor and command: every sequence of ClampedUsize operations keeps the cursor under its bound; whatever a verb did, "
+                 "the exec_cmd epilogue re-establishes bound = grapheme count, cursor under bound, offset table absent-or-fresh whenever the text changed, and under the "
+                 "normal clamp leaves the cursor off the terminator of a non-empty line; set_normal_mode / enforce_cursor_clamp (the three mode-return sites, after fix "
+                 "4dd26bc) end on a character and off any terminator; with a well-formed table the reported byte position is the byte length of the printed text before "
+                 "the cursor and every cut is at a grapheme boundary (a stale table provably is not); this_line() always exists and contains the cursor, so the column "
+                 "cannot underflow and counts graphemes since the line start (texts without CR LF); the charwise selection update keeps the selection ordered, inside the "
+                 "text and containing the cursor. Every run dumps the real editor's state after every key command of random histories (1-40 commands, all modes) and of "
+                 "every history up to depth 2 (quick) / 3 (thorough) over a 69-command alphabet, and checks the invariants directly, against the editor's own "
+                 "line/col/pos/char reports, and against the Lean predicates and set_normal_mode model.",
+        "note": NOTE_COMMON + " PARTIAL: the inductive step 'every command preserves the invariants' is proved for the bookkeeping around the verb (clamp, epilogue, "
+                "mode return, charwise selection), not for each verb/motion body — those are covered only by the per-state runtime check; linewise and block selection "
+                "updates are checked at run time only. Open findings: visual.cursor_at_end, crlf.geometry.",
+        "technique": "Lean 4 proof (invariant re-establishment for arbitrary verbs; table/line-geometry theorems) + Lean-evaluated invariant on every observed state through the key-loop trace hook",
+    },
     "C08": {
         "level": "Kernel-checked for every buffer, cursor, register bank, register name and *every* MotionKind the motion engine can hand to a verb (so for every "
                  "motion and text object, present or future): delete/change remove exactly the span s..e (text = before-span ++ after-span) and store exactly the "
